@@ -27,6 +27,7 @@ import (
 	"strconv"
 	"strings"
 	"sync"
+	"sync/atomic"
 	"time"
 
 	"github.com/spf13/afero"
@@ -834,6 +835,11 @@ func plEnumStartupConfs(seed int64) []plConf {
 			add(plSched{Ctor: "const", From: ops, Dur: plMs(d)})
 		}
 	}
+	// bursts: many startup tokens released back to back (ids must still be 0..n-1, each once)
+	add(plSched{Ctor: "once", Times: 8})
+	add(plSched{Ctor: "once", Times: 12})
+	add(plSched{Ctor: "composite", Kids: []plSched{{Ctor: "once", Times: 4}, pause, {Ctor: "once", Times: 6}}})
+	add(plSched{Ctor: "instance_step", From: 4, To: 12, Step: 4, Dur: plMs(3)})
 	for k := 0; k <= 4; k++ {
 		add(plSched{Ctor: "once", Times: int64(k)})
 		add(plSched{Ctor: "composite", Kids: []plSched{{Ctor: "once", Times: 0}, pause, {Ctor: "once", Times: int64(k)}}})
@@ -1029,6 +1035,111 @@ func plCaseConfUnknown(rng *rand.Rand, m map[string]interface{}, idx int) plConf
 	return c
 }
 
+// ---------------------------------------------------------------- high-contention runs
+//
+// C03's counter clause ("Request = Response = fired") under real contention: 8 instances race through a shared
+// profile with very many tokens that are all due at once; nothing on the hot path sleeps, locks or logs (the gun
+// counts its own shots in a field of its own, the provider hands out one preallocated ammo and counts with two
+// atomics, the aggregator drops the sample, the real schedule is used without the logging wrapper).  The first
+// Acquire of every instance is a barrier, so the instances really run at the same time even on a busy machine.
+// One summary entry per run; TracePool's T_Hot applies the end-of-run rules to it.
+
+type plHotProvider struct {
+	n        int32
+	arrived  int32
+	gate     chan struct{}
+	acquired int64
+	released int64
+	ammo     *plAmmo
+}
+
+func (p *plHotProvider) Run(ctx context.Context, _ core.ProviderDeps) error {
+	<-ctx.Done()
+	return nil
+}
+
+func (p *plHotProvider) Acquire() (core.Ammo, bool) {
+	if atomic.LoadInt32(&p.arrived) < p.n {
+		if atomic.AddInt32(&p.arrived, 1) == p.n {
+			close(p.gate)
+		}
+		select {
+		case <-p.gate:
+		case <-time.After(5 * time.Second): // fewer instances than planned: do not hang
+		}
+	}
+	atomic.AddInt64(&p.acquired, 1)
+	return p.ammo, true
+}
+
+func (p *plHotProvider) Release(core.Ammo) { atomic.AddInt64(&p.released, 1) }
+
+type plHotAggregator struct{}
+
+func (plHotAggregator) Run(ctx context.Context, _ core.AggregatorDeps) error { <-ctx.Done(); return nil }
+func (plHotAggregator) Report(core.Sample)                                  {}
+
+type plHotGun struct {
+	shots int64 // written by the owning instance only, read after the run
+	bound int32
+	_pad  [48]byte
+}
+
+func (g *plHotGun) Bind(core.Aggregator, core.GunDeps) error { g.bound = 1; return nil }
+func (g *plHotGun) Shoot(core.Ammo)                        { g.shots++ }
+
+func plRunHot(run, n, tokens int) map[string]interface{} {
+	prov := &plHotProvider{n: int32(n), gate: make(chan struct{}), ammo: &plAmmo{id: 1}}
+	var gmu sync.Mutex
+	var guns []*plHotGun
+	m := engine.Metrics{Request: &monitoring.Counter{}, Response: &monitoring.Counter{},
+		InstanceStart: &monitoring.Counter{}, InstanceFinish: &monitoring.Counter{}}
+	shared := schedule.NewOnce(int64(tokens))
+	pool := engine.InstancePoolConfig{
+		ID: "hot", Provider: prov, Aggregator: plHotAggregator{},
+		NewGun: func() (core.Gun, error) {
+			g := &plHotGun{}
+			gmu.Lock()
+			guns = append(guns, g)
+			gmu.Unlock()
+			return g, nil
+		},
+		NewRPSSchedule:  func() (core.Schedule, error) { return shared, nil },
+		StartupSchedule: schedule.NewOnce(int64(n)),
+	}
+	eng := engine.New(zap.NewNop(), m, engine.Config{Pools: []engine.InstancePoolConfig{pool}})
+	done := make(chan error, 1)
+	go func() {
+		err := eng.Run(context.Background())
+		eng.Wait()
+		done <- err
+	}()
+	errs := ""
+	select {
+	case err := <-done:
+		if err != nil {
+			errs = err.Error()
+		}
+	case <-time.After(120 * time.Second):
+		errs = "TIMEOUT: Engine.Run/Wait did not return within 120 s"
+	}
+	fired, created := int64(0), 0
+	gmu.Lock()
+	for _, g := range guns {
+		fired += g.shots
+		if g.bound == 1 {
+			created++
+		}
+	}
+	gmu.Unlock()
+	return map[string]interface{}{"run": run, "seq": 0, "ev": "hot", "err": errs,
+		"n": n, "t": tokens, "created": created, "fired": vt.Small(fired),
+		"acquired": vt.Small(atomic.LoadInt64(&prov.acquired)), "released": vt.Small(atomic.LoadInt64(&prov.released)),
+		"request": vt.Small(m.Request.Get()), "response": vt.Small(m.Response.Get()),
+		"inst_start": vt.Small(m.InstanceStart.Get()), "inst_finish": vt.Small(m.InstanceFinish.Get()),
+		"desc": fmt.Sprintf("hot: startup=once(%d) rps=once(%d) shared, unbounded ammo, gun returns at once", n, tokens)}
+}
+
 // ---------------------------------------------------------------- main
 
 func poolMain(args []string) {
@@ -1039,6 +1150,8 @@ func poolMain(args []string) {
 	cases := fs.String("cases", "", "NDJSON file of TLC-generated configurations (M2) instead of random ones")
 	rep := fs.Int("rep", 1, "repetitions of every case")
 	par := fs.Int("par", 6, "runs in parallel")
+	hot := fs.Int("hot", 0, "high-contention runs (8 instances, one shared profile of -hottokens tokens due at once), after the others")
+	hotTokens := fs.Int("hottokens", 400000, "tokens of a high-contention run")
 	fs.Parse(args)
 	seed := vt.Seed()
 	coreimport.Import(afero.NewMemMapFs())
@@ -1093,6 +1206,10 @@ func poolMain(args []string) {
 		res.end["run"] = i
 		res.end["seq"] = len(res.evs) + 1
 		w.Emit(res.end)
+	}
+	// one at a time, nothing else running in this process: all cores for the eight instances
+	for k := 0; k < *hot; k++ {
+		w.Emit(plRunHot(2000000+k, 8, *hotTokens))
 	}
 	if os.Getenv("VERIF_DEBUG") != "" {
 		b, _ := json.Marshal(map[string]int{"runs": len(results)})
